@@ -2,4 +2,9 @@ import SuxModel.Props.C02Small9
 /-! Axiom audit for C02 (Select9 / SelectSmall part): only `propext`, `Classical.choice`, `Quot.sound`. -/
 #print axioms Sux.RS.uleq_step_counts_lanes
 #print axioms Sux.RS.small_select_query_correct
+#print axioms Sux.RS.small_select_zero_query_correct
+#print axioms Sux.RS.small_build_establishes_inv
+#print axioms Sux.RS.small_layer_select_correct
+#print axioms Sux.RS.small_layer_select_zero_correct
 #print axioms Sux.RS.select9_query_correct
+#print axioms Sux.RS.select9_build_inventory_partial
